@@ -216,6 +216,13 @@ M('R3', 'src/xdoctest/runner.py', """            summaries.append(summary)
             if example.warn_list:""", ['C10', 'C15'], 'a skipped doctest after the first is dropped from the tally')
 
 
+M('PL1', 'src/xdoctest/plugin.py', """        if self.dtest.is_disabled(pytest=True):
+            pytest.skip('doctest encountered global skip directive')""", """        if False:
+            pytest.skip('doctest encountered global skip directive')""", ['C15'], 'pytest runs force-disabled doctests')
+M('PL2', 'src/xdoctest/plugin.py', "            dtest.config.update(self._examp_conf)\n            name = dtest.unique_callname",
+  "            name = dtest.unique_callname", ['C15'], 'pytest module items ignore --xdoctest-options')
+
+
 def make_copy():
     d = tempfile.mkdtemp(prefix='xv_mut_')
     shutil.copytree(os.path.join(REPO, 'src'), os.path.join(d, 'src'),
